@@ -705,7 +705,12 @@ pub fn gen_pipe(rng: &mut Rng, wish: &PipeWish) -> Pipe {
             let n = rng.range(1, 2);
             for _ in 0..n {
                 let dir = *rng.pick(&["", "=DESC", "=asc", "=ASC", "=desc"]);
-                opts.push(vec![format!("--sort-by={}{}", rng.pick(SORT_EXPRS), dir)]);
+                if !names.is_empty() && rng.chance(1, 5) {
+                    // sort by a previously selected column
+                    opts.push(vec![format!("--sort-by=/{}/{}", rng.pick(&names), dir)]);
+                } else {
+                    opts.push(vec![format!("--sort-by={}{}", rng.pick(SORT_EXPRS), dir)]);
+                }
             }
             class = Class::Buffering;
         }
